@@ -9,9 +9,30 @@ import (
 	"strings"
 )
 
+// The events output file: a sequence of records (one per Write call). A descriptor opened with
+// O_APPEND always adds at the end; one opened without it writes at its private offset, counted
+// in records: writing where a record already is damages it (the two differ in length, so what
+// remains does not parse) - reported as a torn line.
 type sinkState struct {
 	path   string
 	writes []value
+}
+
+type sinkHandle struct {
+	sink   *sinkState
+	append bool
+	off    int
+}
+
+func (h *sinkHandle) write(bs []value) {
+	s := h.sink
+	if h.append || h.off >= len(s.writes) {
+		s.writes = append(s.writes, bs)
+		h.off = len(s.writes)
+		return
+	}
+	s.writes[h.off] = []value{&opaque{kind: "torn"}}
+	h.off++
 }
 
 func (p *pathCtx) sinkFor(path string) *sinkState {
@@ -47,7 +68,7 @@ func init() {
 	}
 	st["github.com/metal-toolbox/auditevent/helpers.OpenAuditLogFileUntilSuccessWithContext"] = func(fr *frame, args []value) value {
 		path, _ := args[1].(string)
-		var cell value = &opaque{kind: "file", data: map[string]value{"state": &fileState{path: path}, "sink": fr.i.p.sinkFor(path)}}
+		var cell value = &opaque{kind: "file", data: map[string]value{"state": &fileState{path: path}, "sink": &sinkHandle{sink: fr.i.p.sinkFor(path), append: true}}}
 		return tuple{&cell, nilError()}
 	}
 	st["(*os.File).Write"] = func(fr *frame, args []value) value {
@@ -57,10 +78,10 @@ func init() {
 		}
 		o := (*pv).(*opaque)
 		bs := args[1].([]value)
-		if s, ok := o.data["sink"].(*sinkState); ok {
-			// appends to the shared O_APPEND output are ordered by the scheduler, not by the program
+		if h, ok := o.data["sink"].(*sinkHandle); ok {
+			// writes to the shared output are ordered by the scheduler, not by the program
 			fr.i.p.yieldPoint()
-			s.writes = append(s.writes, bs)
+			h.write(bs)
 			return tuple{len(bs), nilError()}
 		}
 		fr.i.p.abort("unsupported", "(*os.File).Write on a non-sink file")
@@ -94,6 +115,10 @@ func init() {
 		if s, ok := p.sinks[args[0].(string)]; ok {
 			for _, w := range s.writes {
 				for _, b := range w.([]value) {
+					if o, ok := b.(*opaque); ok && o.kind == "torn" {
+						out = append(out, "<torn>")
+						continue
+					}
 					if o, ok := b.(*opaque); ok && o.kind == "json" {
 						typ := "?"
 						if ev, ok := o.data["$value"].(*value); ok && ev != nil {
@@ -250,6 +275,10 @@ func init() {
 		for _, w := range s.writes {
 			for _, b := range w.([]value) {
 				o, ok := b.(*opaque)
+				if ok && o.kind == "torn" {
+					out = append(out, "<torn>")
+					continue
+				}
 				if !ok || o.kind != "json" {
 					continue
 				}
